@@ -54,6 +54,10 @@ def recordExpectedFrom (b0 : Bool) (ops : List Op) (T id : String) : Bool :=
 
 def recordExpected (ops : List Op) (T id : String) : Bool := recordExpectedFrom false ops T id
 
+/-- With storage failures: an operation whose transaction failed was reported as failed to its caller and does
+not count as recorded. -/
+def effective (fops : List (Op × Nat)) : List Op := (fops.filter (fun f => f.2 == 0)).map (·.1)
+
 /-- The level the handlers of topic `T` were last told for `id`. -/
 def lastTold (evs : List Ev) (T id : String) : Nat :=
   evs.foldl (fun lv e => if e.topic = T ∧ e.id = id then e.level else lv) 0
